@@ -183,7 +183,17 @@ def _job(args):
     out = []
     n = 0
     try:
-        for z in zs:
+        # another engine object of the same kind has drawn velocities at another temperature earlier in
+        # this process (per-ensemble engines): nothing of that may leak into the engine under test
+        T_other = 4.0 * T
+        try:
+            if one(name, T_other, zs[0], zm, wd, hetero=het) is None:
+                T_other = None
+        except ValueError:
+            T_other = None  # CP2K: the input template fixes the temperature
+        for k, z in enumerate(zs):
+            if T_other is not None and k in (len(zs) // 2,):
+                one(name, T_other, z, zm, wd, hetero=het)
             r = one(name, T, z, zm, wd, hetero=het)
             if r is None:
                 continue
@@ -272,7 +282,7 @@ def run(ctx):
             ctx.violation(sig, msg, dict(kind="z", **rp))
     n += source_untouched(ctx)
     ctx.set("evaluations", n)
-    ctx.set("rule", "engines x temperatures {1, 300} x zero_momentum x masses {H,H ; O,H} x z-arrays over an alphabet for 2 atoms x 3 components; distinct = (engine, T, zero_momentum, #cases)")
+    ctx.set("rule", "engines x temperatures {1, 300} (each preceded and interrupted by a second engine object at 4T in the same process) x zero_momentum x masses {H,H ; O,H} x z-arrays over an alphabet for 2 atoms x 3 components; distinct = (engine, T, zero_momentum, #cases)")
     ctx.sample(dict(engine="lammps", T=300.0, z=[-1.0, 0.0, 2.0, 2.0, -1.0, 0.0], expect="m v^2 = z^2 k_B T per component (SI, CODATA constants)"))
     if ctx.quick:
         ctx.exhaustive = False
@@ -297,6 +307,10 @@ def replay(data):
         return [v for v in c.v if v[0].startswith(data["name"])]
     wd = scratch.mkdtemp("c16r")
     try:
+        try:  # as in the exploration: another engine object at 4T has been used in this process before
+            one(data["name"], 4.0 * data["T"], tuple(data["z"]), data["zm"], wd, hetero=data.get("het", False))
+        except ValueError:
+            pass
         r = one(data["name"], data["T"], tuple(data["z"]), data["zm"], wd, hetero=data.get("het", False))
         bad = r if isinstance(r, list) else r[0]
         return [(f"{data['name']}:{c}", m) for c, m in bad]
